@@ -168,6 +168,8 @@ def w_constructors(ctx, rng, idx):
         call('tt.rand', tt.rand, rows, cols, prop=P, **kw)
         call('tt.uniform', tt.uniform, rows, prop=P, **dict(kw, norm=float(rng.random() * 3 + 0.1)))
     call('tt.uniform', tt.uniform, rows, prop=P)
+    if rng.random() < 0.25:  # the boundary value of the norm: the zero tensor (as int, float or NumPy scalar)
+        call('tt.uniform', tt.uniform, rows, prop=P, norm=[0, 0.0, np.float64(0.0), np.int64(0)][int(rng.integers(0, 4))], tags=['norm=0'], **({'ranks': rk} if rng.random() < 0.5 else {}))
     if rng.random() < 0.4:
         # dimensions / ranks held as narrow NumPy integers (np.int8 ... np.uint16 scalars in a list, or an integer ndarray) whose PRODUCT
         # exceeds the range of that type although every single value fits; norms held as single-precision scalars (exact values)
